@@ -579,6 +579,9 @@ def process_fn(tl, i, d, arg, out, unit):
         fb = src[it.body_open:it.end]
         arm_body, off = find_arm(fb, armsel, rel, sel)
         body = arm_body if arm_body.lstrip().startswith('{') else '{\n' + arm_body + '\n}'
+        if any(k == 'wrap-ok' for k, a, ls in sections):
+            # the arm is the operand of an enclosing `Ok(match ..)`: keep that wrapper (T7)
+            body = '{ Ok(' + body + ') }'
         body_src_line = line_of(src, it.body_open + off)
         sig2 = wrapper_sig.strip() + ' '
         qual = qual + '#' + armsel
@@ -668,7 +671,7 @@ def process_fn(tl, i, d, arg, out, unit):
                 break
             if not placed:
                 out.lost_hints.append({'fn': qual, 'anchor': a})
-        elif k in ('spec', 'arm-pattern', 'wrap', 'subst', 'name', 'desugar-ops'):
+        elif k in ('spec', 'arm-pattern', 'wrap', 'subst', 'name', 'desugar-ops', 'wrap-ok'):
             pass
         else:
             raise AnchorLoss('unknown section %s in %s' % (k, qual))
